@@ -71,7 +71,11 @@ func ProcessDeposits(ctx context.Context, spec *common.Spec, epc *common.EpochsC
 	if err != nil {
 		return err
 	}
-	// state deposit count and deposit index are trusted not to underflow
+	// The adopted eth1 data may report fewer deposits than were already processed (eth1 votes are not checked
+	// against the deposit index): the spec's uint64 subtraction underflows there and the block is invalid.
+	if eth1Data.DepositCount < depIndex {
+		return fmt.Errorf("eth1 data deposit count %d is lower than the deposit index %d", eth1Data.DepositCount, depIndex)
+	}
 	expectedInputCount := uint64(eth1Data.DepositCount - depIndex)
 	if expectedInputCount > uint64(spec.MAX_DEPOSITS) {
 		expectedInputCount = uint64(spec.MAX_DEPOSITS)
